@@ -78,11 +78,12 @@ def make_instances(rng, preds, text, n):
         dom = rng.choice(mixes)
         if k >= 4 and k % 2 == 0:
             # dense instances over a tiny domain: joins succeed, ties and "all values present" situations occur
-            dom = rng.choice([["1", "2"], ["1", "2", "3"], ["0", "1"], (ids[:1] or ["a"]) + ["1", "2"]]
-                             + ([["-2", "2", "3"], ["-1", "1", "2"], ["-2", "2", "5", "3"]] * 2 if collide else [])
-                             # dense AND boundary-aware: tiny domains straddling a constant of the program
-                             + [[str(int(c) - 1), str(int(c) + 1), "1"] for c in nums[-3:]]
-                             + [[str(int(c)), str(int(c) + 2), "1", "2"] for c in nums[-3:]])
+            generic = [["1", "2"], ["1", "2", "3"], ["0", "1"], (ids[:1] or ["a"]) + ["1", "2"]] \
+                + ([["-2", "2", "3"], ["-1", "1", "2"], ["-2", "2", "5", "3"]] * 2 if collide else [])
+            # dense AND boundary-aware: tiny domains straddling a constant of the program
+            big = [c for c in nums if abs(int(c)) > 3][-3:]
+            boundary = [[str(int(c) - 1), str(int(c) + 1), "1"] for c in big] + [[str(int(c)), str(int(c) + 2), "1", "2"] for c in big]
+            dom = rng.choice(boundary) if boundary and rng.random() < 0.6 else rng.choice(generic + boundary)
             facts = []
             for name, ar in preds:
                 if ar == 0:
